@@ -25,8 +25,12 @@ Points == {"write", "read-first", "read-mid", "after-reply"}
 \* ("junk" before the reply: the server sends a well-framed message the client cannot decode - an unsolicited server-to-client request
 \* with vendor content - and then its reply; the connection is of no use any more, whatever the server sends on it afterwards)
 KindsAt(p) == IF p = "write" THEN {"eof", "closed", "reset", "short"} ELSE IF p = "read-first" THEN {"eof", "reset", "junk"} ELSE {"eof", "reset"}
-NoPlan == [pt |-> "none", kind |-> "none", persist |-> FALSE, exch |-> 0]
-Plans == {NoPlan} \cup UNION {{[pt |-> p, kind |-> k, persist |-> b, exch |-> e] : k \in KindsAt(p), b \in BOOLEAN, e \in 1..2} : p \in Points}
+\* refuse: the server refuses the version negotiation it receives on the SECOND connection (an error item instead of the version list):
+\* when a failure inside Dial has made the client reconnect, the negotiation ends with an error on a connection that is alive - Dial
+\* fails, and the connection it had replaced the failed one with is given up like any other (closed, nothing left behind)
+NoPlan == [pt |-> "none", kind |-> "none", persist |-> FALSE, exch |-> 0, refuse |-> FALSE]
+AllPlans == UNION {{[pt |-> p, kind |-> k, persist |-> b, exch |-> e, refuse |-> r] : k \in KindsAt(p), b \in BOOLEAN, e \in 1..2, r \in BOOLEAN} : p \in Points}
+Plans == {NoPlan} \cup {q \in AllPlans : q.refuse => (q.exch = 1 /\ q.pt # "after-reply" /\ ~q.persist)}
 
 VARIABLES plan, exch, pc, gen, dead, sent, replied, tries, dials, attempts, budget, failedNow, fired, result,
           idleDeath      \* the connection died while no call was using it: the client learns it when it next uses the connection
@@ -74,8 +78,14 @@ FaultRead == /\ Applies /\ sent
              /\ dead' = TRUE /\ failedNow' = TRUE /\ fired' = fired + 1
              /\ UNCHANGED <<plan, exch, pc, gen, sent, replied, tries, dials, attempts, budget, result, idleDeath>>
 
+Refused == plan.refuse /\ exch = 1 /\ gen = 2
+\* the negotiation was answered with a refusal: Dial fails and gives the connection up
+RetRefused == /\ pc = "busy" /\ replied /\ ~dead /\ Refused
+              /\ result' = Append(result, "err") /\ pc' = "idle" /\ dead' = TRUE
+              /\ UNCHANGED <<plan, exch, gen, sent, replied, tries, dials, attempts, budget, failedNow, fired, idleDeath>>
+
 \* the response was read completely from a connection that had not failed
-RetResp == /\ pc = "busy" /\ replied /\ ~dead
+RetResp == /\ pc = "busy" /\ replied /\ ~dead /\ ~Refused
            /\ result' = Append(result, "resp") /\ pc' = "idle"
            /\ UNCHANGED <<plan, exch, gen, dead, sent, replied, tries, dials, attempts, budget, failedNow, fired, idleDeath>>
 
@@ -90,7 +100,7 @@ RetErr == /\ pc = "busy" /\ failedNow
           /\ result' = Append(result, "err") /\ pc' = "idle"
           /\ UNCHANGED <<plan, exch, gen, dead, sent, replied, tries, dials, attempts, budget, failedNow, fired, idleDeath>>
 
-Next == Begin \/ Dial \/ Rx \/ FaultWrite \/ Reply \/ FaultRead \/ RetResp \/ FaultAfter \/ RetErr
+Next == Begin \/ Dial \/ Rx \/ FaultWrite \/ Reply \/ FaultRead \/ RetResp \/ RetRefused \/ FaultAfter \/ RetErr
 Spec == Init /\ [][Next]_vars /\ WF_vars(Next)
 
 TypeOK == /\ tries \in 0..8 /\ dials \in 0..8 /\ budget \in 0..3 /\ gen \in Nat /\ exch \in 0..MaxExch
